@@ -982,3 +982,52 @@ def sampler_record_grid_specs():
     for k, combo in enumerate(itertools.product(*(SAMPLER_RECORD_GRID[n_] for n_ in names)), 1):
         fields = dict(zip(names, combo))
         yield fields, {"type": "Sampler", "common": {"name": "Sampler"}, "sets": [], "options": [], "cmid": [], "payload": {"samples": [[0, dict(smp)]] if k % 2 else [], "envelopes": {}, "fields": dict(fields, ins_finetune=-7, ins_relative_note=k % 5)}}
+
+
+def short_sample_records(data, size=0x28):
+    """Re-encode a Sampler file the way SunVox versions before the start_pos field wrote it: every sample
+    record (module chunk number 2*i+1, i < 128) ends after the name."""
+    import struct as _struct
+
+    from vlib import chunktools
+
+    chunks = chunktools.parse(data)
+    out = []
+    cut_next = False
+    n = 0
+    for cid, payload in chunks:
+        if cid == b"CHNM" and len(payload) == 4:
+            (num,) = _struct.unpack("<I", payload)
+            cut_next = num % 2 == 1 and num < 256
+        elif cid == b"CHDT" and cut_next:
+            if len(payload) > size:
+                payload = payload[:size]
+                n += 1
+            cut_next = False
+        elif cid in (b"SEND", b"SFFF"):
+            cut_next = False
+        out.append((cid, payload))
+    return chunktools.build(out), n
+
+
+def short_array_chunk(data, chnm, nbytes):
+    """Re-encode a synth file so that the top-level module's data chunk number `chnm` holds only its first
+    `nbytes` bytes - the way a SunVox version wrote it when the array had fewer items."""
+    import struct as _struct
+
+    from vlib import chunktools
+
+    chunks = chunktools.parse(data)
+    out = []
+    cut_next = False
+    n = 0
+    for cid, payload in chunks:
+        if cid == b"CHNM" and len(payload) == 4:
+            cut_next = _struct.unpack("<I", payload)[0] == chnm
+        elif cid == b"CHDT" and cut_next:
+            if len(payload) > nbytes:
+                payload = payload[:nbytes]
+                n += 1
+            cut_next = False
+        out.append((cid, payload))
+    return chunktools.build(out), n
